@@ -4,8 +4,9 @@ Program recipe (plain JSON)
     {"mode": "implicit" | "explicit",      implicit: no memory spaces and no casts in the input (set-memory-space creates
                                            them); explicit: every memref type carries its space, cast chains are written out
      "elt": 8|16|32, "shape": [n] | [n, m],               element width and the shape every op operand has
-     "roots": [{"kind": "arg"|"alloc"|"glob"|"globu"|"const", "big": 0|1, "seed": int, "space": "L1"|"L3", "gg": 0|1}],
+     "roots": [{"kind": "arg"|"alloc"|"glob"|"globu"|"const", "big": 0|1, "seed": int, "space": "L1"|"L3", "gg": 0|1, "dyn": 0|1}],
                                            gg: every access path of a global takes its own memref.get_global
+                                           dyn: (arg, not big) dimension 0 is `?` in the types (no TSL casts on such a root)
      "layouts": [{"split": [inner tile per dim], "perm": int, "gap": 0|1}],      pool of target layouts of the operand shape
      "epochs": [{"paths": [path per root], "stmts": [stmt]}],
      "ret": [root ref], "vis": "public"|"none", "a2g": 0|1, "dead": 0|1, "plain": 0|1,
@@ -199,7 +200,8 @@ def program(draw, tier="quick", mode=None):
     nroots = draw(st.integers(1, 4))
     kinds = ["arg", "arg", "arg", "alloc", "alloc", "glob", "globu", "const"]
     roots = [dict(kind=draw(st.sampled_from(kinds)), big=draw(st.sampled_from([0, 0, 1])), seed=draw(st.integers(0, 4000)),
-                  space=draw(st.sampled_from(["L3", "L3", "L3", "L1"])), gg=draw(st.sampled_from([0, 0, 0, 1]))) for _ in range(nroots)]
+                  space=draw(st.sampled_from(["L3", "L3", "L3", "L1"])), gg=draw(st.sampled_from([0, 0, 0, 1])),
+                  dyn=draw(st.sampled_from([0, 0, 0, 0, 1]))) for _ in range(nroots)]
     nlay = draw(st.integers(1, 3))
     layouts = [draw(layout_spec(len(shape))) for _ in range(nlay)]
     nep = draw(st.sampled_from([1, 1, 2, 2, 3]))
@@ -251,6 +253,19 @@ def build(r) -> Built:
     lay_recipes = [layout_from_spec(shape, s) for s in r["layouts"]]
     lay_texts = [tsl_text(l) for l in lay_recipes]
 
+    def is_dyn(i):
+        return bool(roots[i].get("dyn")) and roots[i]["kind"] == "arg" and not roots[i].get("big")
+
+    def casts_of(i, path):
+        """Casts of a path as emitted. A root with a dynamic dimension takes no static TSL layout: its layout casts are dropped
+        and, in explicit mode, it is always reached through at least one memory-space cast."""
+        cs = [list(c) for c in path.get("casts", [])[:3]] if explicit else []
+        if is_dyn(i):
+            cs = [c for c in cs if c[0] == "ms"]
+            if explicit and not cs:
+                cs = [["ms", "L1"]]
+        return cs
+
     counter = [0]
 
     def fresh(p="v"):
@@ -267,8 +282,11 @@ def build(r) -> Built:
         if kind == "arg":
             sp = (rt.get("space") or "L3") if explicit else None
             nm = f"%A{i}"
-            args.append((nm, mtype(rshape, elt, None, sp)))
             b.arg_spec.append(("mem", rshape))
+            if is_dyn(i):
+                rshape = ["?"] + list(rshape[1:])  # run-time size = the operand shape
+                b.features.add("dynamic-dim")
+            args.append((nm, mtype(rshape, elt, None, sp)))
         elif kind == "alloc":
             sp = "L1" if explicit else None
             nm = f"%M{i}"
@@ -308,7 +326,7 @@ def build(r) -> Built:
     if explicit:
         for ep in r["epochs"]:
             for i in range(nroots):
-                if ep["paths"][i % len(ep["paths"])].get("casts"):
+                if casts_of(i, ep["paths"][i % len(ep["paths"])]):
                     needs_fresh[i] = True
 
     def emit_path(i, path, out, pad, iv):
@@ -319,7 +337,9 @@ def build(r) -> Built:
             nm = fresh("gg")
             out.append(f'{pad}{nm} = "memref.get_global"() <{{name = @g{i}}}> : () -> {mtype(rshape, elt, None, sp)}')
         cur = nm
-        if not roots[i].get("big") and needs_fresh[i] and not path.get("casts"):
+        casts = casts_of(i, path)
+        oshape = (["?"] + list(shape[1:])) if is_dyn(i) else shape
+        if not roots[i].get("big") and needs_fresh[i] and not casts:
             strides_txt = ", ".join(str(math.prod(rshape[d + 1:])) for d in range(rank))
             layout = f"strided<[{strides_txt}], offset: 0>"
             new = fresh("s")
@@ -355,10 +375,10 @@ def build(r) -> Built:
                            f'static_sizes = array<i64: {", ".join(map(str, shape))}>, static_strides = array<i64: {", ".join(["1"] * rank)}>}}> : ({src_t}) -> {res_t}')
                 b.features.add("subview:static")
             cur = new
-        cur_t = mtype(shape, elt, layout, sp)
+        cur_t = mtype(oshape, elt, layout, sp)
         nc = 0
         if explicit:
-            for c in path.get("casts", [])[:3]:
+            for c in casts:
                 if c[0] == "ms":
                     nsp, nl = c[1], layout
                     opn = "memref.memory_space_cast"
@@ -367,7 +387,7 @@ def build(r) -> Built:
                     nl = None if k < 0 else lay_texts[k % len(lay_texts)]
                     nsp = sp
                     opn = "snax.layout_cast"
-                new_t = mtype(shape, elt, nl, nsp)
+                new_t = mtype(oshape, elt, nl, nsp)
                 new = fresh("c")
                 out.append(f'{pad}{new} = "{opn}"({cur}) : ({cur_t}) -> {new_t}')
                 cur, cur_t, layout, sp = new, new_t, nl, nsp
@@ -476,7 +496,7 @@ def build(r) -> Built:
     top_paths: list[str] = []
     if r.get("dead") and explicit:
         nm, rshape, sp = root_val[0]
-        if not roots[0].get("big") and nm is not None:
+        if not roots[0].get("big") and nm is not None and not is_dyn(0):
             t0 = mtype(shape, elt, None, sp)
             d1 = fresh("d")
             top_paths.append(f'    {d1} = "memref.memory_space_cast"({nm}) : ({t0}) -> {mtype(shape, elt, None, "L1")}')
